@@ -28,7 +28,7 @@ def _timeouts(draw):
     return {str(t): draw(_st.sampled_from([0.13, 0.27, 0.41, 0.77])) for t in range(4) if draw(_st.booleans())}
 
 
-P = Profile(timeouts=_timeouts(), cleanup=0.3, min_buses=2, max_buses=3, par=0.3, raises=0.2, raise_kinds=['VE', 'custom', 'ITO'], actor_ops=['disp', 'disp', 'burst', 'dispany', 'sleep', 'await', 'yield'], maxdepth=[2, 3], wild=0.15, fwd=0.25, warm=[False, False, True], modes=['await', 'later', 'ff', 'ff'], durs=[0.05, 0.1, 0.11, 0.25, 0.5, 1.0])
+P = Profile(timeouts=_timeouts(), cleanup=0.3, min_buses=2, max_buses=3, par=0.3, raises=0.2, raise_kinds=['VE', 'custom', 'ITO'], actor_ops=['disp', 'disp', 'burst', 'dispany', 'sleep', 'await', 'yield'], maxdepth=[2, 3], wild=0.15, fwd=0.25, warm=[False, False, True], modes=['await', 'later', 'ff', 'ff'], durs=[0.05, 0.1, 0.11, 0.25, 0.5, 1.0, 1.0, 16.0])
 
 
 def budget(tier):
